@@ -15,6 +15,8 @@ const CEIL_REPAIR: usize = 96 * MIB;
 const CEIL_LINEAR: usize = 64 * MIB;
 
 fn stream_ops(total: usize, files: usize, piece: usize, class: u64, seed: u64, interleave: bool) -> Vec<WOp> {
+    // pieces above 1 MiB are generated on the fly so that the harness does not hold them
+    let src = || Src { sched: Sched::Full, short_by: 0, extra: 0, stream: piece > MIB };
     let mut ops = Vec::new();
     let per = total / files.max(1);
     let mk = |n: usize, k: u64| -> Data {
@@ -35,7 +37,7 @@ fn stream_ops(total: usize, files: usize, piece: usize, class: u64, seed: u64, i
             for f in 0..files {
                 if left[f] > 0 {
                     let n = left[f].min(piece);
-                    ops.push(WOp::Append { f, data: mk(n, k), src: Src::exact() });
+                    ops.push(WOp::Append { f, data: mk(n, k), src: src() });
                     left[f] -= n;
                     k += 1;
                     any = true;
@@ -49,7 +51,7 @@ fn stream_ops(total: usize, files: usize, piece: usize, class: u64, seed: u64, i
         for f in 0..files {
             while left[f] > 0 {
                 let n = left[f].min(piece);
-                ops.push(WOp::Append { f, data: mk(n, k), src: Src::exact() });
+                ops.push(WOp::Append { f, data: mk(n, k), src: src() });
                 left[f] -= n;
                 k += 1;
             }
@@ -116,7 +118,7 @@ impl Prop for C15 {
         "exploration"
     }
     fn rule(&self) -> String {
-        format!("run = on the unmodified `prod` build, for one layer set x data class (incompressible, zeros, text) x level: a generator streams S_small then S_big bytes (quick: 8 MiB and 64 MiB; thorough: 64 MiB and up to 1 GiB) in 1 MiB pieces into a counting sink that spills to a file in a private scratch directory (nothing of the stream is held on the heap by the harness); the spilled archive is then repaired into a counting sink and linearly extracted into counting sinks, reading from the spill file through the simulated source. A counting global allocator (wrapper around System) measures the peak live heap above the level at the start of each call. Oracle: peak <= fixed ceiling (write {} MiB, repair {} MiB, linear extraction {} MiB; calibrated at about twice the unchanged tree) and peak(S_big) <= peak(S_small) + 8 MiB + 16 bytes per 4 MiB block (8 MiB = two compression blocks, covers the compressor's own block-to-block variation; a stream buffered in memory would differ by tens of MiB); a second kind of run varies the number of files F and of non-contiguous runs R (interleaved 4 KiB pieces) at a fixed total size and checks growth <= 1 KiB per file + 64 bytes per run above the single-file peak. distinct_nontrivial = distinct (layers, data class, kind, size pair) signatures.", CEIL_WRITE / MIB, CEIL_REPAIR / MIB, CEIL_LINEAR / MIB)
+        format!("run = on the unmodified `prod` build, for one layer set x data class (incompressible, zeros, text) x level: a generator streams S_small then S_big bytes (quick: 8 MiB and 64 MiB; thorough: 64 MiB and up to 1 GiB) in 1 MiB pieces, or as ONE piece of S bytes generated on the fly (a single content block), into a counting sink that spills to a file in a private scratch directory (nothing of the stream is held on the heap by the harness); the spilled archive is then repaired into a counting sink and linearly extracted into counting sinks, reading from the spill file through the simulated source. A counting global allocator (wrapper around System) measures the peak live heap above the level at the start of each call. Oracle: peak <= fixed ceiling (write {} MiB, repair {} MiB, linear extraction {} MiB; calibrated at about twice the unchanged tree) and peak(S_big) <= peak(S_small) + 8 MiB + 16 bytes per 4 MiB block (8 MiB = two compression blocks, covers the compressor's own block-to-block variation; a stream buffered in memory would differ by tens of MiB); a second kind of run varies the number of files F and of non-contiguous runs R (interleaved 4 KiB pieces) at a fixed total size and checks growth <= 1 KiB per file + 64 bytes per run above the single-file peak. distinct_nontrivial = distinct (layers, data class, kind, size pair) signatures.", CEIL_WRITE / MIB, CEIL_REPAIR / MIB, CEIL_LINEAR / MIB)
     }
     fn assumptions(&self) -> Vec<String> {
         vec!["allocation failure is not injected (Rust aborts on OOM); the allocator seam only measures".into(), "the file system under the spill file is real, in a private directory removed after the run".into()]
@@ -126,7 +128,7 @@ impl Prop for C15 {
     }
     fn runs(&self, tier: Tier) -> u64 {
         match tier {
-            Tier::Quick => 16,
+            Tier::Quick => 32,
             Tier::Thorough => 64,
         }
     }
@@ -158,6 +160,7 @@ impl Prop for C15 {
         case.params.insert("small_mib".into(), small);
         case.params.insert("big_mib".into(), if layers & 2 != 0 && case.cfg.level >= 9 { big.min(128) } else { big });
         case.params.insert("files".into(), *rng.pick(&[200i64, 1000]));
+        case.params.insert("one_piece".into(), i64::from((run / 16) % 2 == 1 || (run / 4) % 4 == 1));
         case
     }
     fn exec(&self, case: &Case, ctx: &mut Ctx) -> Vec<Violation> {
@@ -168,8 +171,10 @@ impl Prop for C15 {
         if case.param("kind", 0) == 0 {
             let small = case.param("small_mib", 8) as usize * MIB;
             let big = case.param("big_mib", 64) as usize * MIB;
-            let a = measure(case, small, 1, MIB, false, &scratch, &mut v);
-            let b = measure(case, big, 1, MIB, false, &scratch, &mut v);
+            // piece size: 1 MiB pieces, or the whole stream as ONE piece (a single content block of S bytes)
+            let piece = if case.param("one_piece", 0) == 1 { usize::MAX } else { MIB };
+            let a = measure(case, small, 1, piece, false, &scratch, &mut v);
+            let b = measure(case, big, 1, piece, false, &scratch, &mut v);
             if let (Some(a), Some(b)) = (a, b) {
                 let blocks = big / (4 * MIB) + 1;
                 let tol = 8 * MIB + 16 * blocks;
@@ -182,7 +187,7 @@ impl Prop for C15 {
                     if pb > pa + tol {
                         v.push(Violation::new("memory-grows-with-data", format!("{what}|{cls}"), format!("{what}: peak live heap {pa} bytes for {} MiB but {pb} bytes for {} MiB streamed (tolerance {tol})", small / MIB, big / MIB)));
                     }
-                    ctx.sig(format!("size|{cls}|{what}|{}-{}|peakMiB{}", small / MIB, big / MIB, pb / MIB));
+                    ctx.sig(format!("size|{cls}|{what}|{}-{}|piece{}|peakMiB{}", small / MIB, big / MIB, if piece == MIB { "1MiB" } else { "whole" }, pb / MIB));
                 }
                 ctx.probe_n("bytes-streamed-MiB", ((small + big) / MIB) as u64);
                 ctx.probe_n("bytes-stored-MiB", ((a.stored + b.stored) / MIB) as u64);
